@@ -11,12 +11,14 @@ repo) and emits, in the vocabulary of `ALV/Model/C18Src.lean` + `Model/C18.lean`
   data_generator                   shallow  `dataGenerator` (table lookup, keep branch, `d`, the 8-bit override, division)
   chunks.struct                    shallow  `chunksStruct` (format string as parts, Struct, blocks, pack)
   chunks.array (order / swap)      data + shallow  `arrayOrderTable`, `arraySwap`
+  chunks.array (the rest)          shallow  `arrayExport` (the `export()` closure), `arrayStep` (one pass of the fill loop),
+                                            `arrayTail` (end-of-input test, pad loop, last chunk), `chunksArray` (working
+                                            array as a cell list, `forGen` over the input)
 
 `Props/C18.lean` proves `src_*_is_model`: each of these IS the hand-written model function.  Whatever does not fit the
-small grammar below is a TranslationError (= broken obligation), never a silent skip.  The rest of `chunks.array`
-(working array, export, the two loops) is hand-modelled; the sha1 of its AST is pinned (`ARRAY_REST_SHA1`)."""
+small grammar below is a TranslationError (= broken obligation), never a silent skip.  Nothing of `chunks.array` is
+pinned by a hash any more: `src_chunks_array_is_model` ties the whole body to the model's `chunksArrayPy`."""
 import ast
-import hashlib
 import os
 import re
 import subprocess
@@ -34,11 +36,11 @@ TRANSLATED = [
     ("lazy_wav.WavStream.__init__.data_generator", "shallow: lookup / keep / d / 8-bit override / division; src_data_generator_is_model"),
     ("lazy_io.chunks.struct", "shallow: format string as parts, Struct, blocks, pack; src_chunks_struct_is_model"),
     ("lazy_io.chunks.array: order table and swap", "data + shallow: src_array_order_is_model (decide), src_array_swap_is_model"),
+    ("lazy_io.chunks.array: working array, export(), the fill loop, the pad loop and the last partial chunk",
+     "shallow: arrayExport / arrayStep / arrayTail / chunksArray over a cell list with set (forGen / forRange of Model/C18Src); "
+     "src_chunks_array_is_model, src_array_export_is_model; corollary src_chunks_array_eq_src_chunks_struct"),
 ]
 NOT_TRANSLATED = [
-    ("lazy_io.chunks.array: working array, export(), the fill loop and the pad loop",
-     "mutable array.array cells + a closure over them; hand model aLoop / aFill / exportCells; the sha1 of the AST of these "
-     "statements is pinned (an edit = broken obligation until the model is re-read)"),
     ("lazy_io.chunks.*: `if size is None: size = chunks.size` and the parameter defaults",
      "recognised and required by the translator but mapped to nothing: the model takes the resolved size; defaults are tied by "
      "the call-shape cases of the differential tie"),
@@ -46,9 +48,6 @@ NOT_TRANSLATED = [
      "the translator checks that the finally clause is exactly `w.close()`; the laziness / life-cycle machines stay hand-written"),
     ("struct.Struct / array.array / wave.Wave_read themselves", "standard library: vocabulary of the model, not source of the repo"),
 ]
-
-# sha1 of ast.dump of the non-translated statements of chunks.array (see _array_rest)
-ARRAY_REST_SHA1 = "5ee14b505e3c58d3b1d5f3f3a2ff7c55c5a0433e"
 
 LEAN_RESERVED = set("at in from end do then fun let if else match with open def theorem where have show by "
                     "instance structure inductive namespace section variable import mut for return "
@@ -524,9 +523,194 @@ def tr_io(text):
             "def arraySwap (native : Order) (%s : OrderArg) : Bool :=" % bo,
             "  let %s := orderGet arrayOrderTable native %s" % (order, bo),
             "  %s" % sw]
-    rest = [b[1], b[2]] + b[5:]
-    sha = hashlib.sha1(("%s|%s|%s|%s|" % (seq, size, dfmt, pad) + swap + "|" + _dump(rest)).encode()).hexdigest()
-    return out, sha
+    out += _tr_array_body(b, (seq, size, dfmt, bo, pad), _ident(swap, b[4]), order)
+    return out, ""
+
+
+def _assign1(st, what):
+    if not (isinstance(st, ast.Assign) and len(st.targets) == 1 and isinstance(st.targets[0], ast.Name)):
+        fail("chunks.array: `%s = ...` expected" % what, st)
+    return st.targets[0].id, st.value
+
+
+def _tr_array_body(b, params, swap, order):
+    """the working array, `export()`, the fill loop, the end-of-input pad loop and the last partial chunk of chunks.array
+    -> arrayExport / arrayStep / arrayTail / chunksArray over a cell list (vocabulary: Model/C18Src.lean, section arr)"""
+    seq, size, dfmt, bo, pad = params
+    ARGS = "(native : Order) (%s : OrderArg) (%s : Fmt) (%s : Nat)" % (bo, dfmt, size)
+    CALL = "native %s %s %s" % (bo, dfmt, size)
+    ENC = "(arrEnc native %s)" % dfmt
+    # --- chunk = array.array(dfmt, [0] * size)
+    chunk, v = _assign1(b[1], "chunk")
+    chunk = _ident(chunk, b[1])
+    if not (isinstance(v, ast.Call) and ast.dump(v.func) == _atom("array.array") and len(v.args) == 2 and not v.keywords
+            and ast.dump(v.args[0]) == _atom(dfmt) and isinstance(v.args[1], ast.BinOp) and isinstance(v.args[1].op, ast.Mult)
+            and isinstance(v.args[1].left, ast.List) and len(v.args[1].left.elts) == 1
+            and ast.dump(v.args[1].right) == _atom(size)):
+        fail("chunks.array: `%s = array.array(%s, [<int>] * %s)` expected" % (chunk, dfmt, size), b[1])
+    zero = _int(v.args[1].left.elts[0], "the initial item of the working array")
+    # --- idx = 0
+    idx, v = _assign1(b[2], "idx")
+    idx = _ident(idx, b[2])
+    idx0 = _int(v, "the initial write position", 0)
+    taken = {seq, size, dfmt, bo, pad, swap, order}
+    if len({chunk, idx} | taken) != 9 or {"out", "ifres", "e", "export"} & ({chunk, idx} | taken):
+        fail("chunks.array: local names clash", b[1])
+    # --- tobytes
+    tob, v = _assign1(b[5], "tobytes")
+    _same_stmts(b[5:6], '%s = getattr(array.array, "tobytes", None) or array.array.tostring' % tob, "the choice of tobytes")
+    # --- def export():
+    ex = b[6]
+    if not (isinstance(ex, ast.FunctionDef) and not ex.args.args and not ex.decorator_list and not ex.args.vararg
+            and not ex.args.kwarg and not ex.args.kwonlyargs):
+        fail("chunks.array: `def export():` expected", ex)
+    export = ex.name
+
+    def export_stmts(stmts, arrs, ind):
+        """-> Lean lines of a statement list that ends with `return tobytes(<array>)`; arrs: names of arrays in scope"""
+        lines = []
+        for k, st in enumerate(stmts):
+            last = k == len(stmts) - 1
+            if isinstance(st, ast.Return):
+                if not last:
+                    fail("export: statements after a return", st)
+                r = st.value
+                if not (isinstance(r, ast.Call) and ast.dump(r.func) == _atom(tob) and len(r.args) == 1 and not r.keywords
+                        and isinstance(r.args[0], ast.Name) and r.args[0].id in arrs):
+                    fail("export: `return %s(<array>)` expected" % tob, st)
+                return lines + [ind + "arrTobytes %s" % r.args[0].id]
+            if isinstance(st, ast.If) and not st.orelse:
+                neg = isinstance(st.test, ast.UnaryOp) and isinstance(st.test.op, ast.Not)
+                tst = st.test.operand if neg else st.test
+                if ast.dump(tst) != _atom(swap):
+                    fail("export: `if %s:` / `if not %s:` expected" % (swap, swap), st)
+                if not st.body or not isinstance(st.body[-1], ast.Return):
+                    fail("export: the branch of the if must end with a return", st)
+                lines.append(ind + "if %s%s then" % ("!" if neg else "", swap))
+                lines += export_stmts(st.body, arrs, ind + "  ")
+                lines.append(ind + "else")
+                return lines + export_stmts(stmts[k + 1:], arrs, ind + "  ")
+            if isinstance(st, ast.Assign):
+                nm, v = _assign1(st, "swapped")
+                nm = _ident(nm, st)
+                if nm in taken or nm in (idx, "out", "ifres", "e"):
+                    fail("export: %s is rebound" % nm, st)
+                if not (isinstance(v, ast.Call) and ast.dump(v.func) == _atom("array.array") and len(v.args) == 2
+                        and not v.keywords and ast.dump(v.args[0]) == _atom(dfmt) and isinstance(v.args[1], ast.Name)
+                        and v.args[1].id in arrs):
+                    fail("export: `%s = array.array(%s, <array>)` expected" % (nm, dfmt), st)
+                lines.append(ind + "let %s := arrCopy %s" % (nm, v.args[1].id))
+                arrs = arrs | {nm}
+                continue
+            if (isinstance(st, ast.Expr) and isinstance(st.value, ast.Call) and isinstance(st.value.func, ast.Attribute)
+                    and st.value.func.attr == "byteswap" and isinstance(st.value.func.value, ast.Name)
+                    and st.value.func.value.id in arrs and not st.value.args and not st.value.keywords):
+                nm = st.value.func.value.id
+                if nm == chunk:
+                    fail("export: byteswap of the working array itself (it would stay swapped)", st)
+                lines.append(ind + "let %s := arrByteswap %s" % (nm, nm))
+                continue
+            fail("export: statement not understood: %s" % ast.unparse(st).splitlines()[0], st)
+        fail("export: no return at the end", ex)
+
+    out = ["", "/-- `%s()` of `chunks.array` (`%s` = the working array at the moment of the call) -/" % (export, chunk),
+           "def arrayExport (native : Order) (%s : OrderArg) (%s : List Bytes) : Bytes :=" % (bo, chunk),
+           "  let %s := arraySwap native %s" % (swap, bo)] + export_stmts(_body(ex), {chunk}, "  ")
+    EXPORT = "arrayExport native %s %s" % (bo, chunk)
+    env = {_atom(idx): idx, _atom(size): size}
+
+    def is_yield_export(st):
+        return isinstance(st, ast.Expr) and isinstance(st.value, ast.Yield) and st.value.value is not None \
+            and ast.dump(st.value.value) == _atom("%s()" % export)
+
+    def set_stmt(st, index, values):
+        """`chunk[index] = <one of values>` -> the value name"""
+        if not (isinstance(st, ast.Assign) and len(st.targets) == 1 and isinstance(st.targets[0], ast.Subscript)
+                and ast.dump(st.targets[0].value) == _atom(chunk) and ast.dump(st.targets[0].slice) == _atom(index)
+                and isinstance(st.value, ast.Name) and st.value.id in values):
+            return None
+        return st.value.id
+
+    def idx_assign(st):
+        if isinstance(st, ast.AugAssign) and ast.dump(st.target).replace("Store", "Load") == _atom(idx) and type(st.op) in NOPS:
+            return "%s %s %s" % (idx, NOPS[type(st.op)], _paren(nexp(st.value, env)))
+        if isinstance(st, ast.Assign) and len(st.targets) == 1 and ast.dump(st.targets[0]).replace("Store", "Load") == _atom(idx):
+            return nexp(st.value, env)
+        return None
+
+    # --- for el in seq: ...
+    loop = b[7]
+    if not (isinstance(loop, ast.For) and not loop.orelse and ast.dump(loop.iter) == _atom(seq)):
+        fail("chunks.array: `for el in %s:` expected" % seq, loop)
+    el = _ident(_name(loop.target, "loop variable"), loop)
+    if el in taken or el in (chunk, idx, "out", "ifres", "e"):
+        fail("chunks.array: the loop variable %s clashes" % el, loop)
+
+    def body_stmts(stmts, ind, top, yielded):
+        lines = []
+        for st in stmts:
+            if top and set_stmt(st, idx, {el, pad}):
+                if yielded[0]:
+                    fail("chunks.array: an item assignment after a yield in the same pass (outside the vocabulary)", st)
+                lines += [ind + "match arrSet %s %s %s %s with" % (ENC, chunk, idx, set_stmt(st, idx, {el, pad})),
+                          ind + "| .error e => .error e", ind + "| .ok %s =>" % chunk]
+            elif idx_assign(st) is not None:
+                lines.append(ind + "let %s := %s" % (idx, idx_assign(st)))
+            elif is_yield_export(st):
+                yielded[0] = True
+                lines.append(ind + "let out := out ++ [%s]" % EXPORT)
+            elif isinstance(st, ast.If) and not st.orelse and top:
+                lines.append(ind + "let ifres :=")
+                lines.append(ind + "  if %s then" % cexp(st.test, env))
+                lines += body_stmts(st.body, ind + "    ", False, yielded)
+                lines += [ind + "    (%s, out)" % idx, ind + "  else (%s, out)" % idx,
+                          ind + "let %s := ifres.1" % idx, ind + "let out := ifres.2"]
+            else:
+                fail("chunks.array: statement of the fill loop not understood: %s" % ast.unparse(st).splitlines()[0], st)
+        return lines
+
+    out += ["", "/-- one pass of `for %s in %s:` of `chunks.array`: the new array and write position, the chunks yielded -/" % (el, seq),
+            "def arrayStep %s (%s : List Bytes) (%s : Nat) (%s : PVal) :" % (ARGS, chunk, idx, el),
+            "    Except PackErr ((List Bytes × Nat) × List Bytes) :=",
+            "  let out : List Bytes := []"] + body_stmts(loop.body, "  ", True, [False]) + [
+            "  .ok ((%s, %s), out)" % (chunk, idx)]
+    # --- if idx != 0: for idx in xrange(idx, size): chunk[idx] = padval; yield export()
+    tail = b[8]
+    if not (isinstance(tail, ast.If) and not tail.orelse and len(tail.body) == 2 and isinstance(tail.body[0], ast.For)
+            and not tail.body[0].orelse and len(tail.body[0].body) == 1 and is_yield_export(tail.body[1])):
+        fail("chunks.array: `if <test>: for i in xrange(lo, hi): %s[i] = %s` + `yield %s()` expected" % (chunk, pad, export), tail)
+    ttest = cexp(tail.test, env)
+    pl = tail.body[0]
+    it = pl.iter
+    if not (isinstance(it, ast.Call) and isinstance(it.func, ast.Name) and it.func.id in ("xrange", "range") and len(it.args) == 2
+            and not it.keywords):
+        fail("chunks.array: the pad loop must run over xrange(lo, hi)", pl)
+    lo, hi = nexp(it.args[0], env), nexp(it.args[1], env)
+    lv = _ident(_name(pl.target, "loop variable of the pad loop"), pl)
+    if lv != idx and (lv in taken or lv in (chunk, el, "out", "ifres", "e")):
+        fail("chunks.array: the loop variable %s of the pad loop clashes" % lv, pl)
+    if set_stmt(pl.body[0], lv, {pad}) is None:
+        fail("chunks.array: `%s[%s] = %s` expected in the pad loop" % (chunk, lv, pad), pl.body[0])
+    out += ["", "/-- the end of the input: `if %s:` the pad loop `for %s in xrange(%s, %s)` and the last chunk -/" % (
+                ast.unparse(tail.test), lv, ast.unparse(it.args[0]), ast.unparse(it.args[1])),
+            "def arrayTail %s (%s : PVal) (%s : List Bytes) (%s : Nat) : Gen Bytes PackErr :=" % (ARGS, pad, chunk, idx),
+            "  if %s then" % ttest,
+            "    match forRange (fun %s %s => arrSet %s %s %s %s) (%s - %s) %s %s with" % (
+                lv, chunk, ENC, chunk, lv, pad, _paren(hi), _paren(lo), _paren(lo), chunk),
+            "    | .error e => ⟨[], some e⟩",
+            "    | .ok %s => ⟨[%s], none⟩" % (chunk, EXPORT),
+            "  else ⟨[], none⟩"]
+    # --- the whole strategy
+    out += ["", "/-- `chunks.array`: the working array of `%s` items %d, the write position %d, the fill loop, the end of the input -/" % (
+                size, zero, idx0),
+            "def chunksArray %s (%s : PVal) (%s : List PVal) : Gen Bytes PackErr :=" % (ARGS, pad, seq),
+            "  match arrNew %s (.int %s) %s with" % (ENC, "(%d)" % zero if zero < 0 else str(zero), size),
+            "  | .error e => ⟨[], some e⟩",
+            "  | .ok %s =>" % chunk,
+            "    let %s : Nat := %d" % (idx, idx0),
+            "    forGen (fun st %s => arrayStep %s st.1 st.2 %s) (fun st => arrayTail %s %s st.1 st.2) (%s, %s) %s" % (
+                el, CALL, el, CALL, pad, chunk, idx, seq)]
+    return out
 
 
 HEADER = ["/- GENERATED by harness/props/c18_tr.py from audiolazy/lazy_wav.py and audiolazy/lazy_io.py (read with `ast`).",
@@ -535,7 +719,7 @@ HEADER = ["/- GENERATED by harness/props/c18_tr.py from audiolazy/lazy_wav.py an
 
 
 def translate(wav_text, io_text):
-    """-> (Lean text, sha1 of the pinned rest of chunks.array)"""
+    """-> (Lean text, "")  (the second component was the sha1 of a pinned part; nothing is pinned any more)"""
     io_lines, sha = tr_io(io_text)
     lines = HEADER + tr_wav(wav_text) + io_lines + ["", "end ALV.Gen.C18", ""]
     return "\n".join(lines), sha
@@ -604,12 +788,22 @@ EDITS = [   # (name, file index 0 = wav / 1 = io, old, new)
     ("struct: padval not passed to blocks", 1, "blocks(seq, size, padval=padval)", "blocks(seq, size)"),
     ("array: '!' -> little", 1, '"!": "big"', '"!": "little"'),
     ("array: swap test != -> ==", 1, "swap = order != sys.byteorder", "swap = order == sys.byteorder"),
-    ("array: pad loop starts at idx + 1 (pinned part)", 1, "for idx in xrange(idx, size):", "for idx in xrange(idx + 1, size):"),
+    ("array: pad loop starts at idx + 1", 1, "for idx in xrange(idx, size):", "for idx in xrange(idx + 1, size):"),
+    ("array: export() swaps when NOT swap", 1, "    if not swap:\n      return tobytes(chunk)", "    if swap:\n      return tobytes(chunk)"),
+    ("array: byteswap dropped", 1, "    swapped.byteswap()\n", ""),
+    ("array: byteswap of the working array itself", 1, "    swapped = array.array(dfmt, chunk)\n    swapped.byteswap()\n    return tobytes(swapped)",
+     "    chunk.byteswap()\n    return tobytes(chunk)"),
+    ("array: idx reset before the yield is dropped", 1, "      yield export()\n      idx = 0", "      yield export()"),
+    ("array: chunk full test idx == size -> idx + 1 == size", 1, "    if idx == size:", "    if idx + 1 == size:"),
+    ("array: idx += 1 before the item assignment (reorder)", 1, "    chunk[idx] = el\n    idx += 1", "    idx += 1\n    chunk[idx] = el"),
+    ("array: end-of-input test idx != 0 -> idx != size", 1, "  if idx != 0:", "  if idx != size:"),
+    ("array: working array one item longer", 1, "[0] * size)", "[0] * (size + 1))"),
 ]
 HARMLESS = [  # edits that must NOT change the translation: comments, whitespace, docstrings
     ("comment + blank lines", 0, "    def data_generator():", "    # a comment\n\n    def data_generator():"),
     ("docstring of block_reader", 0, '""" Raw wave data block generator (following block align) """', '""" other words """'),
     ("spaces in an expression", 1, "dfmt = str(size) + dfmt", "dfmt = str( size )+dfmt"),
+    ("comment inside export()", 1, "    swapped.byteswap()\n", "    swapped.byteswap()  # in place\n"),
 ]
 
 
@@ -624,9 +818,6 @@ def selftest(texts=None, base=None):
     if base is not None:
         res.append(("translator-selftest: unchanged source reproduces the committed Gen file byte for byte", ref == base,
                     "" if ref == base else "differs (%d vs %d bytes)" % (len(ref), len(base))))
-    res.append(("translator-selftest: pinned sha1 of the hand-modelled rest of chunks.array", sha == ARRAY_REST_SHA1,
-                "" if sha == ARRAY_REST_SHA1 else "source %s, pinned %s: chunks.array (array / export / loops) was edited; re-read "
-                "Model/C18.lean aLoop / aFill / exportCells against it" % (sha, ARRAY_REST_SHA1)))
     for name, which, old, new in EDITS + HARMLESS:
         harmless = (name, which, old, new) in HARMLESS
         t = list(texts)
@@ -638,7 +829,7 @@ def selftest(texts=None, base=None):
         try:
             got = translate(*t)
             differs = got != (ref, sha)
-            how = "different Gen text" if got[0] != ref else ("different pinned sha1" if differs else "SAME translation")
+            how = "different Gen text" if differs else "SAME translation"
         except TranslationError as ex:
             differs, how = True, "TranslationError: %s" % str(ex).splitlines()[0][:100]
         except SyntaxError as ex:
